@@ -69,6 +69,8 @@ pub enum Error {
     DecodeOddNumOfElements(&'static str, usize),
     /// Key not string in dictionary
     DecodeKeyNotString(&'static str, usize),
+    /// Lists/dictionaries nested too deep.
+    DecodeTooDeep(&'static str, usize),
     /// Missing [bencoded](https://en.wikipedia.org/wiki/Bencode) data to decode tracker response.
     TrackerBEncodeMissing,
     /// Not enough data in tracker response.
@@ -143,6 +145,7 @@ impl fmt::Display for Error {
             Error::DecodeKeyNotString(fun, pos) => {
                 write!(f, "{}: key is not string at {}", fun, pos)
             }
+            Error::DecodeTooDeep(fun, pos) => write!(f, "{}: nested too deep at {}", fun, pos),
             Error::TrackerBEncodeMissing => write!(f, "Tracker, bencode is missing"),
             Error::TrackerDataMissing => write!(f, "Tracker, data is missing"),
             Error::TrackerIncorrectOrMissing(name) => {
